@@ -1095,6 +1095,9 @@ func createLowPass(st funcGen.Stack[Value], store []Value) (Value, error) {
 				return nil, err
 			}
 			y, err := MustFloat(yv, nil)
+			if err != nil {
+				return nil, err
+			}
 			dt := t1 - t0
 			a := math.Exp(-dt / tau)
 			yn := y*a + x*(1-a)
